@@ -10,6 +10,7 @@
 //@ decides: C10: for the call orders of one generation with two iterations (full traversal) and with an early exit after the first iteration body, the fold state written at the end holds one lore entry per iteration whose before/after intervals start where the corresponding part started, have exactly the emitted lengths, are pairwise disjoint, ordered (before1, before2, after2, after1) and together cover exactly the entries emitted after the fold state; value_pos is the value supplied
 //@ outside: folds merged with previous/current fold states (resolved lore, slider repositioning by lore), more than 2 iterations per generation, several generations, nested folds
 //@ harness: name=c10_fold_lore_two_iterations props=C10,C08 cap=1800 cost=200 sym="entries emitted: before the fold 0..=1; before-next and after-next part of each of 2 iterations 0..=2 each; value positions any u32" bound="1 generation, 2 iterations, result trace <= 10 entries"
+//@ harness: name=c10_fold_lore_single_value_after_part props=C10 cap=1200 cost=120 sym="entries emitted before the fold 0..=1, before next 0..=2, after the back traversal started 0..=2; value position any u32" bound="1 generation, 1 iteration whose after-part is closed by the generation end (no second back-iterator call)"
 //@ harness: name=c10_fold_lore_early_exit props=C10 cap=1200 cost=100 sym="entries emitted before the fold 0..=1 and by the first iteration body 0..=2; value position any u32" bound="1 generation, 1 iteration left early (next never reached)"
 //@ harness: name=c04_fold_lore_applier_positions props=C04,C09 cap=1200 cost=100 sym="before/after subtrace (begin, len) of the previous-data and of the current-data lore of one iteration: any u32 that fit a 6-entry trace; lore present / absent per side" bound="6-entry placeholder traces"
 //@ harness: name=c01_fold_fsm_any_call_order props=C01 panicfree=1 cap=1800 cost=300 sym="2 fold events chosen symbolically: next-forward (iteration end + start at any value position), next-back (iteration end + back iterator), generation end; a failing event ends the run" bound="fresh fold without a started iteration, 2 events"
@@ -300,4 +301,47 @@ fn c01_fold_fsm_any_call_order() {
 #[kani::stub(alloc::fmt::format, fmt_stub)]
 fn c01_fold_fsm_any_order_after_start() {
     any_order_body(true, 3);
+}
+
+/// One value in the generation: `next` turns back at once, the instructions after it (the fold's last
+/// instruction) emit entries, and the after-interval is closed only by the generation end.
+#[kani::proof]
+#[kani::unwind(12)]
+#[kani::stub(std::hash::RandomState::new, random_state_stub)]
+#[kani::stub(alloc::fmt::format, fmt_stub)]
+fn c10_fold_lore_single_value_after_part() {
+    let mut dk = DataKeeper::from_trace(placeholder_trace(0).into(), placeholder_trace(0).into());
+    let before = small(1);
+    emit(&mut dk, before);
+    let v1: u32 = kani::any();
+    let (a1, b1) = (small(2), small(2));
+    let r = FoldFSM::from_fold_start(MergerFoldResult::default(), &mut dk);
+    let mut fsm = match r {
+        Ok(f) => f,
+        Err(e) => {
+            kani::assert(false, "C04: a fresh fold is always accepted");
+            std::mem::forget(e);
+            return;
+        }
+    };
+    let n0 = before as u32 + 1;
+    let r1 = fsm.meet_iteration_start(v1.into(), &mut dk);
+    emit(&mut dk, a1);
+    let r2 = fsm.meet_iteration_end(&dk);
+    let r3 = fsm.meet_back_iterator(&mut dk);
+    emit(&mut dk, b1);
+    fsm.meet_generation_end(&dk);
+    fsm.meet_fold_end(&mut dk);
+    kani::assert(r1.is_ok() && r2.is_ok() && r3.is_ok(), "C04: no step fails");
+    match dk.result_trace.get((before as u32).into()) {
+        Some(ExecutedState::Fold(f)) => {
+            kani::assert(f.lore.len() == 1 && f.lore[0].subtraces_desc.len() == 2, "C10: one lore entry with two intervals");
+            kani::assert(desc_is(&f.lore[0].subtraces_desc[0], n0, a1 as u32), "C10: before-interval covers what was emitted before next");
+            kani::assert(desc_is(&f.lore[0].subtraces_desc[1], n0 + a1 as u32, b1 as u32), "C10: after-interval starts where the back traversal started and covers everything emitted until the generation end (no gap at the tail)");
+        }
+        _ => kani::assert(false, "C10: the placeholder is replaced by the fold state"),
+    }
+    kani::cover!(a1 == 1 && b1 == 2, "non-trivial sizes");
+    std::mem::forget((r1, r2, r3));
+    std::mem::forget(dk);
 }
